@@ -21,7 +21,7 @@ Row(ag, cur) == [i \in DOMAIN cur |-> Bind(ag, cur[i])]
 
 \* GETBULK repeaters: the full row-major repetition matrix for m repetitions (RFC 3416 4.2.3)
 RECURSIVE Rows(_, _, _)
-Rows(ag, cur, m) == IF m = 0 \/ cur = <<>> THEN <<>>
+Rows(ag, cur, m) == IF m <= 0 \/ cur = <<>> THEN <<>>       \* (a negative max-repetitions counts as 0: RFC 3416 4.2.3)
                     ELSE LET row == Row(ag, cur) IN row \o Rows(ag, [i \in DOMAIN cur |-> row[i].oid], m - 1)
 
 \* conformant truncations of a GETBULK response: any prefix holding at least one full repetition
